@@ -60,6 +60,7 @@ class Syms:
         self.aarrs = []     # allocatable integer arrays
         self.recs = []      # variables of type(rec_t) (components n, tab(10))
         self.is_program = False
+        self.objs = []      # variables of type(outer_t): obj%mid (mid_t) %inner (inner_t), bindings `run`
 
 
 class ExecGen:
@@ -72,6 +73,7 @@ class ExecGen:
         self.arrayref = False
         self.labels = 100
         self.assoc = []           # stack of associate names (integers)
+        self.tb_assoc = []        # stack of (associate name, type) for component selectors
 
     # ---- expressions
     def iexpr(self, depth=0):
@@ -136,11 +138,29 @@ class ExecGen:
 
     def literal(self):
         return self.ch.choice(["'call nothing(1)'", '"x = fake(2)"', "'it''s f(x)'", "'if (a) call b(c)'", '"call foo"',
-                               "'end subroutine'", "'plain'"])
+                               "'end subroutine'", "'plain'", '"can\'t stop"', "'say \"hi\"'"])
 
     # ---- statements
+    # chains over outer_t -> mid (mid_t) -> inner (inner_t); both mid_t and inner_t bind `run`
+    def tb_call(self):
+        ch, s = self.ch, self.s
+        cands = []
+        for o in s.objs:
+            cands += [(f"{o}%mid", "mid_t"), (f"{o}%mid%inner", "inner_t")]
+        for nm, ty in self.tb_assoc:
+            cands.append((nm, ty))
+            if ty == "mid_t":
+                cands.append((f"{nm}%inner", "inner_t"))
+        chain, ty = ch.choice(cands)
+        self.calls.add(f"{ty}%run")
+        self.forms.add("type-bound-call")
+        sp = ch.choice(["%", " % "])
+        return "call " + chain.replace("%", sp) + sp + "run" + ch.choice(["()", "", " ()"])
+
     def call_stmt(self):
         ch, s = self.ch, self.s
+        if (s.objs or self.tb_assoc) and "type_bound" not in self.excl and ch.bool(1, 4):
+            return self.tb_call()
         pools = [("sub", sorted(s.subs))] if s.subs else []
         if s.gens:
             pools.append(("gen", sorted(s.gens)))
@@ -257,6 +277,23 @@ class ExecGen:
                 out.append("case default")
                 out.append(self.simple())
                 out.append("end select")
+            elif k == "associate" and (self.s.objs or self.tb_assoc) and "type_bound" not in self.excl and ch.bool(1, 2):
+                # selector is an object/component; the associate name may shadow an outer one
+                cands = [(f"{o}%mid", "mid_t") for o in self.s.objs]
+                cands += [(f"{nm_}%inner", "inner_t") for nm_, ty_ in self.tb_assoc if ty_ == "mid_t"]
+                sel, ty = ch.choice(cands)
+                nm = ch.choice(["p", "q"])      # deliberately reused: inner associations shadow outer ones
+                if any(sel.startswith(x + "%") for x, _ in self.tb_assoc if x == nm):
+                    self.forms.add("associate-shadows-itself")
+                out.append(f"associate ({nm} => {sel})")
+                self.tb_assoc.append((nm, ty))
+                saved = [x for x in self.tb_assoc]
+                # names hidden by this association must not be used as if they had their outer meaning
+                self.tb_assoc = [x for x in self.tb_assoc[:-1] if x[0] != nm] + [(nm, ty)]
+                out.append(self.tb_call())
+                out += self.block(depth + 1)
+                self.tb_assoc = saved[:-1]
+                out.append("end associate")
             elif k == "associate":
                 nm = f"asc{len(self.assoc)}_{ch.int(3)}"
                 sel = self.iexpr()
@@ -339,6 +376,10 @@ def locals_for(scope, syms, ch, tag):
         rn = f"rec_{tag}"
         scope["decls"].append(_var(rn, {"base": "type", "proto": "rec_t"}))
         s.recs = getattr(s, "recs", []) + [rn]
+    if ch.bool(1, 2) and not getattr(s, "no_objs", False):
+        on = f"obj_{tag}"
+        scope["decls"].append(_var(on, {"base": "type", "proto": "outer_t"}))
+        s.objs = s.objs + [on]
     aa = f"dyn_{tag}"
     d = _var(aa, I, attrs=["allocatable"])
     d["dimattr"] = "(:)"
@@ -353,6 +394,7 @@ def gen_case(ch: Chooser, excl=()):
     lib = {"k": "module", "name": "lib", "uses": [], "default_access": None, "access_pos": "early", "decls": [],
            "procs": [], "doc": None}
     syms = Syms()
+    syms.no_objs = "type_bound" in excl
     sub_pool, fun_pool = ch.shuffle(SUB_NAMES), ch.shuffle(FUN_NAMES)
     for _ in range(ch.count(1, 3)):
         n = sub_pool.pop()
@@ -381,6 +423,20 @@ def gen_case(ch: Chooser, excl=()):
                          "access_how": "attr", "sequence": False, "private_comps": False,
                          "comps": [_var("n", I), dict(_var("tab", I), dimattr="(10)")], "private_binds": False,
                          "binds": [], "finals": [], "doc": None})
+    def bound_type(name, comps, impl):
+        return {"d": "type", "name": name, "abstract": False, "extends": None, "access": None, "access_how": "attr",
+                "sequence": False, "private_comps": False, "comps": comps, "private_binds": False, "finals": [], "doc": None,
+                "binds": [{"name": "run", "target": impl, "generic": False, "deferred": False, "iface": None, "attrs": [],
+                           "access": None, "doc": None}]}
+    if "type_bound" not in excl:
+        lib["decls"].append(bound_type("inner_t", [_var("n", I)], "inner_run"))
+        lib["decls"].append(bound_type("mid_t", [_var("inner", {"base": "type", "proto": "inner_t"})], "mid_run"))
+        lib["decls"].append({"d": "type", "name": "outer_t", "abstract": False, "extends": None, "access": None,
+                             "access_how": "attr", "sequence": False, "private_comps": False,
+                             "comps": [_var("mid", {"base": "type", "proto": "mid_t"})], "private_binds": False,
+                             "binds": [], "finals": [], "doc": None})
+        for tname, impl in (("inner_t", "inner_run"), ("mid_t", "mid_run")):
+            lib["procs"].append(mksub(impl, 0, args=["self"], decls=[dict(_var("self", {"base": "class", "proto": tname}, intent="inout"))]))
     hi = "lib_counter"
     lib["decls"].append(_var(hi, I))
     syms.ints.append(hi)
@@ -433,6 +489,9 @@ def gen_case(ch: Chooser, excl=()):
         s = sem.scopes[tuple(path)]
         exp = []
         for n in sorted(g.calls):
+            if "%" in n:
+                exp.append("lib/" + n.replace("%", "/"))
+                continue
             ent = sem.resolve(s, n, ["proc"])
             exp.append(ent or "unresolved:" + n.lower())
         refs.append({"scope": path, "ifbody": None, "slot": "calls", "at": "calls", "name": sorted(g.calls),
